@@ -543,3 +543,63 @@ Proof.
   unfold expected_tsplib. fold custs. unfold all_coords. rewrite fold_left_app. cbn [fold_left].
   rewrite as_usize_id by exact Hcap. rewrite as_i32_id by (apply nat32_i32, Hcap). reflexivity.
 Qed.
+
+(* ---------- initial solution text ---------- *)
+Lemma count_colons_ints r : count_colons (map TInt r) = O.
+Proof. induction r; [reflexivity|exact IHr]. Qed.
+Lemma route_ids_ok known r : Forall (fun z => In z known) r -> route_ids known (map TInt r) = Ok r.
+Proof.
+  induction 1 as [|z r Hz _ IH]; [reflexivity|]. cbn [map route_ids].
+  replace (known_id known z) with true.
+  - rewrite IH. reflexivity.
+  - symmetry. unfold known_id. apply existsb_exists. exists z. split; [exact Hz|apply Z.eqb_refl].
+Qed.
+Lemma read_init_routes known tail rs : Forall (Forall (fun z => In z known)) rs ->
+  forall i avail, (List.length rs <= avail)%nat ->
+  (forall a, read_init known a tail = Ok []) ->
+  read_init known avail
+    (map (fun ir => TWord "Route" :: TInt (fst ir) :: TColon :: map TInt (snd ir)) (number_from i rs) ++ tail) = Ok rs.
+Proof.
+  intros Hk. induction Hk as [|r rs Hr _ IH]; intros i avail Hl Ht; cbn [number_from map app].
+  - apply Ht.
+  - cbn [read_init count_colons fst snd]. rewrite count_colons_ints. cbn [Nat.eqb].
+    destruct avail as [|a]; [cbn in Hl; lia|].
+    cbn [split_colon snd]. rewrite route_ids_ok by exact Hr. cbn [bind].
+    rewrite IH by (cbn in Hl; lia || exact Ht). reflexivity.
+Qed.
+Lemma init_text_roundtrip known nveh rs cost :
+  Forall (Forall (fun z => In z known)) rs -> (List.length rs <= nveh)%nat ->
+  read_init known nveh (write_solution rs cost) = Ok rs.
+Proof.
+  intros Hk Hl. unfold write_solution.
+  replace (map (fun '(i, r) => TWord "Route" :: TInt i :: TColon :: map TInt r) (number_from 1 rs))
+    with (map (fun ir => TWord "Route" :: TInt (fst ir) :: TColon :: map TInt (snd ir)) (number_from 1 rs))
+    by (apply map_ext; now intros [i r]).
+  apply read_init_routes; [exact Hk|exact Hl|]. intros a. reflexivity.
+Qed.
+
+(* ---------- distances between customers through their location indices ---------- *)
+Lemma distance_between rd cs a b : In a cs -> In b cs ->
+  exists i j row, loc_of (all_coords cs) a = Z.of_nat i /\ loc_of (all_coords cs) b = Z.of_nat j /\
+                  nth_error (matrix rd (all_coords cs)) i = Some row /\ nth_error row j = Some (dist rd a b).
+Proof.
+  intros Ha Hb. destruct (loc_of_faithful cs a Ha) as (i & Li & Ni). destruct (loc_of_faithful cs b Hb) as (j & Lj & Nj).
+  destruct (matrix_entry rd _ _ _ _ _ Ni Nj) as (row & R1 & R2). exists i, j, row. auto.
+Qed.
+
+(* ---------- non-vacuity witnesses ---------- *)
+Definition sol_witness : sol_inst :=
+  mkSol 3 20 (mkCust 0 5 5 0 0 100 0) [mkCust 1 6 5 3 10 50 2; mkCust 2 5 5 4 0 60 1].
+Lemma sol_witness_wf : sol_wf sol_witness.
+Proof.
+  unfold sol_wf, sol_witness, cust_wf, nat32, i32, i32_min, i32_max, two64. cbn.
+  repeat split; try lia. repeat constructor; cbn; lia.
+Qed.
+Definition tsp_witness : tsp_inst := mkTsp [mkTnode 1 0 0 0; mkTnode 2 3 4 4; mkTnode 3 6 9 5] 1 10.
+Lemma tsp_witness_wf : tsp_wf tsp_witness.
+Proof.
+  unfold tsp_wf, tsp_witness, tnode_wf, nat32, i32, i32_min, i32_max. cbn.
+  repeat split; try lia.
+  - repeat constructor; cbn; lia.
+  - repeat constructor; cbn; intuition lia.
+Qed.
